@@ -143,12 +143,13 @@ def handle : List String → String
     | some fuel, some cps =>
       let toks := (PlasVerif.Model.Tokenizer.tokenize PlasVerif.Model.Catcodes.defaultCats cps).map fromC01
       -- aux: the repaired variant of the known finding D49 (the correspondence accepts either, the as-is one is replayed)
-      s!"{visStr (runProgram fuel toks)}\t{tvisStr (texProgram fuel toks)}\t{visStr (runProgramRepaired fuel toks)}"
+      -- aux 2: the evaluator restricted to the proved fragment (`run_eq_texRun_language_partial`): `texRun fragOk` on all primitives
+      s!"{visStr (runProgram fuel toks)}\t{tvisStr (texProgram fuel toks)}\t{visStr (runProgramRepaired fuel toks)}\t{tvisStr (texRun fragOk fuel ⟨toks, primTable, []⟩)}"
     | _, _ => "bad-op"
   | "progt" :: fuelW :: ws =>
     -- the same on an explicit token list
     match fuelW.toNat?, toks? ws with
-    | some fuel, some toks => s!"{visStr (runProgram fuel toks)}\t{tvisStr (texProgram fuel toks)}\t{visStr (runProgramRepaired fuel toks)}"
+    | some fuel, some toks => s!"{visStr (runProgram fuel toks)}\t{tvisStr (texProgram fuel toks)}\t{visStr (runProgramRepaired fuel toks)}\t{tvisStr (texRun fragOk fuel ⟨toks, primTable, []⟩)}"
     | _, _ => "bad-op"
   | _ => "bad-op"
 
